@@ -124,6 +124,7 @@ ACCEPTS = [[], [0], [0], [0], [0], [0, 1]]
 def show_cond(t, top=True):
     k = t[0]
     if k == "id": return t[1]
+    if k == "sel": return ("all of " if t[1] else "1 of ") + t[2]
     if k == "not":
         return "not " + (t[1][1] if t[1][0] == "id" else "(" + show_cond(t[1]) + ")")
     parts = []
@@ -141,6 +142,11 @@ COND_POOL = [I("sel"), ["not", I("sel")], ["and", [I("sel"), I("flt")]], ["or", 
              ["or", [["and", [I("sel"), I("flt")]], ["not", I("sel2")]]],
              ["not", ["not", I("sel")]], ["and", [I("sel"), I("flt"), I("sel2")]],
              ["and", [["and", [I("sel"), I("flt")]], ["not", I("sel2")]]]]
+def S(all_, pat): return ["sel", all_, pat]
+# selector conditions: the pattern is expanded over the rule's detection names in the rule's own order
+SEL_POOL = [S(False, "sel*"), S(True, "sel*"), S(False, "them"), S(True, "them"), S(False, "s*"), S(True, "*2"),
+            ["and", [S(False, "sel*"), ["not", I("flt")]]], ["not", S(False, "s*")], ["or", [S(True, "sel*"), I("flt")]],
+            ["and", [I("flt"), ["not", S(True, "sel*")]]]]
 BROKEN_CONDS = ["sel and", "sel flt", "sel | count() > 1"]   # ParseException / deprecated pipe syntax -> SigmaConditionError
 
 FIELDS = ["f", "g", "h", "fieldA", "fieldC", "k"]
@@ -161,7 +167,9 @@ def bad_rule(kind):
 def rand_rule(rng, hostile=0.25):
     names = ["sel", "flt", "sel2"]
     dets = []
-    for n in names[:rng.choice([1, 2, 2, 3, 3])]:
+    names = names[:rng.choice([1, 2, 2, 3, 3])]
+    if rng.random() < 0.4: rng.shuffle(names)          # same set of detection names, another order
+    for n in names:
         fs = rng.sample(FIELDS, rng.choice([1, 1, 2]))
         items = []
         for f in fs:
@@ -175,13 +183,24 @@ def rand_rule(rng, hostile=0.25):
             conds.append(rng.choice(BROKEN_CONDS))
         else:
             have = {d[0] for d in dets}
-            pool = [t for t in COND_POOL if rng.random() < 0.15 or ids_of(t) <= have]
-            conds.append(show_cond(rng.choice(pool)))
+            pool = [t for t in COND_POOL + (SEL_POOL if rng.random() < 0.45 else []) if rng.random() < 0.15 or ids_of(t) <= have]
+            t = rng.choice(pool)
+            while not sel_matches(t, [d[0] for d in dets]):     # a selector that matches nothing yields no query at all
+                t = rng.choice(COND_POOL)
+            conds.append(show_cond(t))
     fields = rng.sample(FIELDS, rng.choice([0, 0, 1, 2, 3]))
     return {"bad": None, "raw": None, "product": rng.choice([0, 1, 1, 2]), "dets": dets, "conds": conds, "fields": fields}
 
+def sel_matches(t, names):
+    import fnmatch
+    if t[0] == "sel": return t[2] == "them" or any(fnmatch.fnmatchcase(n, t[2]) for n in names)
+    if t[0] == "id": return True
+    if t[0] == "not": return sel_matches(t[1], names)
+    return all(sel_matches(a, names) for a in t[1])
+
 def ids_of(t):
     if t[0] == "id": return {t[1]}
+    if t[0] == "sel": return {"sel2"} if t[2] == "*2" else {"sel"}
     if t[0] == "not": return ids_of(t[1])
     return set().union(*[ids_of(a) for a in t[1]])
 
@@ -344,6 +363,22 @@ def gen_history(tier, rng):
             for probe in (["rule", 0, R_LC, 0], ["coll", 0, [R_LC, R_CT], 2], ["rule", 0, R_CT, 3]):
                 out.append(mk_case([1, 2, 0], [["new", cls, 0, False]] + first + [probe]))
                 out.append(mk_case([1, 2, 0], [["new", cls, 0, True]] + first + [["new", cls, None, False], [probe[0], 1] + probe[2:]]))
+    # selector conditions over detection sections that coincide as sets but differ in order / differ by one name /
+    # coincide exactly with those of earlier rules; earlier rule only loaded, converted on the same or on another backend
+    def srule(names, conds, product=1):
+        vals = {"sel": ["fieldA", "str", "a"], "sel2": ["fieldB", "str", "b"], "flt": ["g", "num", "1"], "selb": ["k", "star", "c"]}
+        return {"bad": None, "raw": None, "product": product, "dets": [[n, [vals[n]]] for n in names], "conds": conds}
+    selcases = []
+    for conds in (["1 of sel*"], ["all of sel*"], ["1 of them"], ["all of them", "1 of s*"], ["1 of sel* and not flt"], ["not 1 of s*"], ["sel or sel2"]):
+        base = ["sel", "sel2", "flt"]
+        for earlier in (base, ["sel2", "sel", "flt"], ["flt", "sel2", "sel"], ["sel", "selb", "flt"], ["sel", "sel2"]):
+            for probe_names in (base, ["sel2", "sel", "flt"], ["flt", "sel", "sel2"]):
+                e, pr = srule(earlier, conds), srule(probe_names, conds)
+                for cls in (0, 1):
+                    selcases.append(mk_case([1, 0, 0], [["new", cls, 0, False], ["rule", 0, e, 0], ["rule", 0, pr, 0]]))
+                    selcases.append(mk_case([1, 0, 0], [["new", cls, 0, False], ["coll", 0, [e, pr, e], 2]]))
+                    selcases.append(mk_case([1, 0, 0], [["new", cls, 0, True], ["coll", 0, [e], 0], ["new", cls, None, False], ["rule", 1, pr, 0]]))
+    out += selcases if tier != "quick" else selcases[:6] + rng.sample(selcases, 160)
     optcases = []
     for cls in (0, 1, 4, 5, 6):
         for d in VAR_PDEFS[:3]:
@@ -419,6 +454,7 @@ def c_rule(r):
 
 def c_tree(t):
     if t[0] == "id": return f"(PId {cstr(t[1])})"
+    if t[0] == "sel": return f"(PSel {cbool(t[1])} {cstr(t[2])})"
     if t[0] == "not": return f"(PNot {c_tree(t[1])})"
     return f"({'PAnd' if t[0] == 'and' else 'POr'} {clist(c_tree(a) for a in t[1])})"
 
@@ -435,6 +471,10 @@ def parse_cond(s):
             eat(); r = p_or()
             if peek() != ")": raise ValueError
             eat(); return r
+        if t in ("1", "any", "all") and pos[0] + 2 < len(toks) + 0 and toks[pos[0] + 1] == "of":
+            q = eat(); eat(); pat = eat()
+            if not re.fullmatch(r"[A-Za-z0-9_*]+", pat): raise ValueError
+            return ["sel", q == "all", pat]
         if t is None or t in ("and", "or", "not", ")") or not re.fullmatch(r"[A-Za-z0-9_-]+", t): raise ValueError
         return ["id", eat()]
     def p_not():
@@ -557,7 +597,10 @@ def known_history(c, r):
 
 def stratum(c, r):
     owns, fmt = classify(c)
-    return c["ops"][-1][0] + ("" if owns else "+reowned") + ("" if fmt else "+stalefmt")
+    grown = []
+    if isinstance(r, dict) and r.get("outs"):       # module-level objects of sigma.* that grew during the history (information)
+        grown = [g for g in r["outs"][-1]["int"].get("grown", []) if not g.startswith("sigma.modifiers.")]
+    return c["ops"][-1][0] + ("" if owns else "+reowned") + ("" if fmt else "+stalefmt") + ("+grown:" + ",".join(grown) if grown else "")
 
 def mutate_history(c, rng):
     out = []
@@ -668,7 +711,10 @@ PROPERTY = Property(
          "state set first / probe first) x same backend by convert / convert_rule, new backend of the class with its own, the shared, or no "
          "pipeline; every dict / list / set attribute of the backend classes and their bases compared with its initial value after every operation; rules "
          "with |contains and with a harness-registered |lcontains (subclass of the contains modifier taking numbers too) loaded / converted in "
-         "both orders, incl. documents failing the type check. Exhaustive: all histories of <= 1 (quick) / <= 2 "
+         "both orders, incl. documents failing the type check; selector conditions (1 of / all of pattern, them) alone and mixed with "
+         "identifiers over detection sections that coincide with those of earlier rules as sets but differ in order, differ by one name, or "
+         "coincide exactly (earlier rule converted on the same backend, in the same collection, on another backend); every module-level dict / "
+         "list / set and lru_cache of the sigma.* modules is put back to its import-time content by the fresh setup, growth is reported in the strata. Exhaustive: all histories of <= 1 (quick) / <= 2 "
          "(thorough) operations from a 17-operation alphabet after two backend creations in 3 sharing setups x all 14 probes (6 of them at length 2), sampled at the next "
          "length (70 / 400 histories x 2 probes per setup); 400 / 6000 random histories of 2..8 operations incl. collections with a filter document. The last operation is the probe; oracle = same probe with new class objects, new "
          "pipeline objects from the same YAML and cleared caches. non-trivial = probe is a conversion preceded by at least one "
